@@ -122,6 +122,13 @@ WellTyped(t) ==
            /\ ~HasName(t.terms[k][2].ti, t.terms[k][1])
            /\ t.terms[k][3].to = RealD
     [] t.c = "Con" -> \A k \in 1..Len(t.vars) : IsBintD(t.vars[k][2])
+    [] t.c = "Integ" ->
+         /\ t.measure.to = RealD /\ t.integrand.to.dt = 0
+         /\ SharedAgree(t.measure.ti, t.integrand.ti)
+         /\ \A k \in 1..Len(t.vars) :
+              /\ IsBintD(t.vars[k][2])
+              /\ \A x \in {t.measure, t.integrand} :
+                   HasName(x.ti, t.vars[k][1]) => Lookup(x.ti, t.vars[k][1]) = t.vars[k][2]
     [] OTHER -> FALSE
 
 \* the value must fit the declared output domain at every point (type soundness)
@@ -294,7 +301,15 @@ DoDelta ==
        LET t == Mk([c |-> "Delta", terms |-> << <<NewNames[n], Last, Mk(DeltaLds[d])>> >>])
        IN Last.c # "Delta" /\ Admissible(t) /\ Push(t)
 
-Next == DoDelta \/ DoCon \/ AddLeaf \/ DoUn \/ DoBin \/ DoGetitem \/ DoRed \/ DoSub \/ DoLam \/ DoStack
+\* Integrate(log_measure, integrand, reduced_vars): measure and integrand from the pool
+DoInteg ==
+  /\ "Integ" \in Acts /\ CanStep /\ Len(pool) >= 2
+  /\ \E j \in 1..(Len(pool) - 1), flip \in BOOLEAN, mask \in 1..(IPow(2, Len(RedVars)) - 1) :
+       LET t == Mk([c |-> "Integ", measure |-> IF flip THEN Last ELSE pool[j],
+                    integrand |-> IF flip THEN pool[j] ELSE Last, vars |-> SubSeqByMask(RedVars, mask)])
+       IN Admissible(t) /\ Push(t)
+
+Next == DoInteg \/ DoDelta \/ DoCon \/ AddLeaf \/ DoUn \/ DoBin \/ DoGetitem \/ DoRed \/ DoSub \/ DoLam \/ DoStack
         \/ DoCat \/ DoAlign \/ DoIndep
 
 Init == pool = <<>> /\ nops = 0
